@@ -776,6 +776,18 @@ class InterpBuiltins:
     def bi_keys(self, args, kw, line):
         return ValuesView(args[0], 'keys')
 
+    def bi_gmap(self, args, kw, line):
+        """spec: gmap(coll, 'name', key) -> int.  Ghost integer map attached to a collection object (an abstract quantity
+        derived from its contents that the engine does not compute, e.g. a sum).  It lives in the heap next to the
+        contents of the collection (same frame rules: it is havocked whenever the contents may be modified)."""
+        coll, name, key = args
+        prefix = {ListV: 'L.', SetV: 'S.', DictV: 'D.'}.get(type(coll))
+        if prefix is None or not isinstance(name, str):
+            raise Unsupported('gmap(collection, literal name, key)')
+        kt = self.lift(key)
+        a = self.H(coll).get(f'{prefix}g.{name}:{kt.sort()}', arr(Ref, arr(kt.sort(), I)))
+        return SV(a[coll.ref][kt], INT)
+
     def bi_order_len(self, args, kw, line):
         """spec: number of positions of the insertion order of dict d (= number of keys)"""
         d = args[0]
